@@ -237,6 +237,40 @@ def record_extra(rng, g, k, D, N, C, x, y, m) -> List[List[dict]]:
     except Exception as ex:
         evs.append(dict(ev="ax", ax="accepted", loss="wlcc_loss[masks]", D=D, N=N, C=C, exc=True, what="source_mask/target_mask", err=f"{type(ex).__name__}: {ex}"[:120]))
     trace("wlcc_loss[masks]", evs)
+    # overlap losses on soft segmentations: reductions are reductions of the (N, C) 'none' output, also with the focal exponent
+    p_seg = torch.rand(shape, generator=g)
+    t_seg = (torch.rand(shape, generator=g) > 0.5).float()
+    for name, fn in (("dice_loss", lambda r, **kw: L.dice_loss(p_seg, t_seg, reduction=r)), ("dice_score", lambda r, **kw: L.dice_score(p_seg, t_seg, reduction=r)),
+                     ("tversky_loss", lambda r, **kw: L.tversky_loss(p_seg, t_seg, alpha=0.3, beta=0.7, reduction=r)),
+                     ("tversky_loss[gamma]", lambda r, **kw: L.tversky_loss(p_seg, t_seg, alpha=0.3, beta=0.7, gamma=2.0, reduction=r)),
+                     ("tversky_index", lambda r, **kw: L.tversky_index(p_seg, t_seg, alpha=0.3, beta=0.7, reduction=r))):
+        evs = []
+        try:
+            none = fn("none")
+            evs.append(dict(ev="ax", ax="equals", loss=name, D=D, N=N, C=C, v1=cap(fn("mean")), v2=cap(none.mean()), what="mean = mean of none"))
+            evs.append(dict(ev="ax", ax="equals", loss=name, D=D, N=N, C=C, v1=cap(fn("sum")), v2=cap(none.sum()), what="sum = sum of none"))
+            if name == "tversky_loss[gamma]":
+                ti = L.tversky_index(p_seg, t_seg, alpha=0.3, beta=0.7, reduction="none")
+                evs.append(dict(ev="ax", ax="equals", loss=name, D=D, N=N, C=C, v1=cap(none.sum()), v2=cap(((1 - ti) ** 2.0).sum()), what="none = (1 - TI)^gamma"))
+        except Exception as ex:
+            evs.append(dict(ev="ax", ax="accepted", loss=name, D=D, N=N, C=C, exc=True, what="reductions", err=f"{type(ex).__name__}: {ex}"[:120]))
+        trace(name + "[reductions]", evs)
+    # mutual information with random sampling AND a mask: intensities outside the mask cannot matter (same generator state for both calls)
+    if C == 1:
+        for name, fn in (("mi_loss", L.mi_loss), ("nmi_loss", L.nmi_loss)):
+            evs = []
+            try:
+                mm = (torch.rand((N, 1) + shape[2:], generator=g) > 0.4).float()
+                xz = torch.where(mm.expand(shape) == 0, x + 6, x)
+                yz = torch.where(mm.expand(shape) == 0, y - 3, y)
+                vals = []
+                for a_, b_ in ((x, y), (xz, yz)):
+                    torch.manual_seed(1234 + k)
+                    vals.append(float(fn(a_, b_, mask=mm, vmin=-5.0, vmax=20.0, num_bins=16, num_samples=64)))
+                evs.append(dict(ev="ax", ax="invariant", loss=name + "[sampled,mask]", D=D, N=N, C=C, v1=cap(vals[1]), v2=cap(vals[0]), what="intensities outside the mask changed"))
+            except Exception as ex:
+                evs.append(dict(ev="ax", ax="accepted", loss=name + "[sampled,mask]", D=D, N=N, C=C, exc=True, what="num_samples with mask", err=f"{type(ex).__name__}: {ex}"[:120]))
+            trace(name + "[sampled,mask]", evs)
     # loss modules with implicit normalisation: norm = max_difference(source, target)^2 from whichever images are given
     s_img, t_img = x * 2 + 1, y + 3
     for cls, fn in ((LI.L2ImageLoss, L.mse_loss), (LI.SSD, L.ssd_loss), (LI.L1ImageLoss, L.mae_loss)):
